@@ -5,8 +5,10 @@ package server
 import (
 	"bytes"
 	"encoding/base64"
+	"encoding/binary"
 	"errors"
 	"fmt"
+	"net"
 
 	"github.com/cbeuw/Cloak/internal/common"
 	"github.com/cbeuw/Cloak/internal/vnet"
@@ -288,6 +290,100 @@ func init() {
 		return rep
 	}})
 
+	// replay.flood: the memory of a handshake does not depend on how many other first packets the
+	// server has seen since: after `n` other well-formed hellos with fresh randoms (anyone can send
+	// them), all inside the acceptance window, the captured handshake is still refused.
+	vx.Register(&vx.Scenario{Name: "replay.flood", Prop: "C08", Run: func(c *vx.Ctx) *vx.Report {
+		rep := &vx.Report{Job: c.Job, Engine: "enum", Outcomes: map[string]int64{}, Exhaustive: true}
+		n := c.PI("n", 70000)
+		uid := uidOf(0)
+		hello, r := captureFirst(hsCase{Transport: "direct", Browser: "firefox", Method: "plain", ProxyMethod: "shadowsocks", SID: 3, ServerName: "example.com"}, uid)
+		t0 := rtime.Now()
+		clock := t0
+		sta := &State{StaticPv: r.sta.StaticPv, UsedRandom: map[[32]byte]int64{}, WorldState: common.WorldState{Now: func() rtime.Time { return clock }}}
+		if _, _, err := AuthFirstPacket(hello, TLS{}, sta); err != nil {
+			rep.HarnessError = "the captured handshake is not accepted: " + err.Error()
+			return rep
+		}
+		junk := append([]byte{}, hello...)
+		checkpoints := map[int]bool{1: true, 1000: true, 1024: true, 4096: true, 16384: true, 65535: true, 65536: true, 65537: true, n: true}
+		for i := 1; i <= n; i++ {
+			// a fresh 32-byte random (ClientHello.random starts at offset 11); the sealed block no longer opens
+			binary.BigEndian.PutUint64(junk[11:], uint64(i)*0x9e3779b97f4a7c15)
+			binary.BigEndian.PutUint64(junk[19:], uint64(i))
+			AuthFirstPacket(junk, TLS{}, sta)
+			rep.Transitions++
+			clock = t0.Add(rtime.Duration(i) * 60 * rtime.Second / rtime.Duration(n)) // one minute in all
+			if checkpoints[i] {
+				_, _, err := AuthFirstPacket(hello, TLS{}, sta)
+				rep.Executions++
+				if err == nil {
+					rep.Violations = append(rep.Violations, vx.Violation{Clause: "accepted-at-most-once", Sig: vx.Sig(c.Job, "accepted-at-most-once"), Msg: fmt.Sprintf("after %d other first packets within one minute the captured handshake was accepted a second time", i)})
+					rep.Exhaustive = false
+					break
+				}
+				rep.Outcomes["refused"]++
+			}
+		}
+		rep.States = rep.Executions
+		return rep
+	}})
+
+	// replay.afterfault: the first presentation authenticates but the server cannot write its reply
+	// (the peer has gone - anyone on the path can cause that); the same bytes presented again are a replay:
+	// relayed to the redirect target, never answered.
+	vx.Register(&vx.Scenario{Name: "replay.afterfault", Prop: "C08", Run: func(c *vx.Ctx) *vx.Report {
+		sc := &vrt.Scenario{
+			Opt:      vrt.Options{Delay: true, HorizonNs: int64(100 * time.Second)},
+			Classify: deadlockIs("no-deadlock"),
+			Main: func() {
+				r := newE2ERig(newMemManager(), [][]byte{uidOf(0)}, nil)
+				hello := r.captureHello(uidOf(0), 5, c.P("browser", "firefox"))
+				r.wrapAccepted = func(i int, cn net.Conn) net.Conn {
+					if i == 0 {
+						return deafConn{cn}
+					}
+					return cn
+				}
+				var webGot []byte
+				vrt.Go("web", func() {
+					wc, err := r.webL.Accept()
+					if err != nil {
+						return
+					}
+					b := make([]byte, 4096)
+					for {
+						k, err := wc.Read(b)
+						webGot = append(webGot, b[:k]...)
+						if err != nil {
+							return
+						}
+					}
+				})
+				r.serve(2)
+				c1, _ := r.dialer.Dial("tcp", "server:443")
+				c1.Write(hello)
+				quiesce()
+				c1.Close()
+				quiesce()
+				c2, _ := r.dialer.Dial("tcp", "server:443")
+				c2.Write(hello)
+				time.Sleep(20 * time.Second)
+				peer := c2.(*vnet.Conn)
+				if peer.Queued() > 0 {
+					b := make([]byte, 64)
+					k, _ := peer.Read(b)
+					vrt.Fail("accepted-at-most-once", "the handshake was presented once (the reply could not be written) and then again: the second presentation was answered with %d bytes starting % x", k, b[:min(k, 6)])
+				}
+				if !bytes.Equal(webGot, hello) {
+					vrt.Fail("accepted-at-most-once", "the second presentation of a handshake whose first reply could not be written was not relayed to the redirect target (target received %d of %d bytes)", len(webGot), len(hello))
+				}
+				vrt.Observe("refused")
+			},
+		}
+		return vx.RunSched(c, sc, nil)
+	}})
+
 	vx.RegisterJobs("C08", func(tier string) []vx.Job {
 		q := tier == "quick"
 		b := func(quick, thorough int) int {
@@ -303,6 +399,9 @@ func init() {
 			{Scenario: "replay.history", Params: vx.P("depth", fmt.Sprint(b(4, 5)), "variant", "0", "lead", "170"), Bound: 0, Weight: 8},
 			{Scenario: "replay.history", Params: vx.P("depth", fmt.Sprint(b(3, 4)), "lead", "-170"), Bound: 0, Weight: 6},
 			{Scenario: "replay.crosstransport", Weight: 2},
+			{Scenario: "replay.flood", Params: vx.P("n", fmt.Sprint(b(70000, 300000))), Weight: 6},
+			{Scenario: "replay.afterfault", Params: vx.P("browser", "firefox"), Bound: 1, Weight: 3},
+			{Scenario: "replay.afterfault", Params: vx.P("browser", "chrome"), Bound: 1, Weight: 3},
 			{Scenario: "replay.concurrent", Params: vx.P("threads", "3"), Bound: -1, Weight: 5},
 			{Scenario: "replay.concurrent", Params: vx.P("threads", "2", "crosscheck", "1"), Bound: 3, Weight: 5},
 			{Scenario: "replay.concurrent", Params: vx.P("threads", "2", "variant", "1"), Bound: -1, Weight: 5},
